@@ -291,7 +291,7 @@ Proof.
   assert (Hm : mem (exact_ty v) st = true).
   { destruct (sclass_of v); [discriminate | destruct v; try discriminate; exact H | destruct v; try discriminate; exact H]. }
   unfold inst_any. apply existsb_exists. exists (exact_ty v). split; [apply mem_In; exact Hm|].
-  apply mem_In. apply hd_types_of_in.
+  apply mem_In. unfold isa. apply in_or_app. left. apply hd_types_of_in.
 Qed.
 
 Lemma lts_prune_save sn st st' v : load_type_skipped st' (prune_save sn st v) = load_type_skipped st' v.
